@@ -14,6 +14,7 @@ fn float_lit(e: &Expr) -> Option<String> {
     match e {
         Expr::Lit(l) => match &l.lit {
             Lit::Float(f) => Some(f.base10_digits().to_string()),
+            Lit::Int(i) if i.suffix().starts_with('f') => Some(i.base10_digits().to_string()),
             _ => None,
         },
         Expr::Paren(p) => float_lit(&p.expr),
@@ -100,6 +101,10 @@ pub fn rw_f64(r: &R, e: &Expr) -> Option<String> {
         }
         Expr::Call(c) => {
             let t = norm(r.verb(c.func.span()));
+            if t == "f64::from" && c.args.len() == 1 {
+                r.note("R7 f64::from(x) -> f_from_f64(x)");
+                return Some(format!("f_from_f64({})", r.expr(&c.args[0])));
+            }
             match t.as_str() {
                 "<f64asBound>::max" => Some("f_maxval()".into()),
                 "<f64asBound>::min" => Some("f_minval()".into()),
@@ -119,7 +124,7 @@ pub fn rw_f64(r: &R, e: &Expr) -> Option<String> {
         Expr::MethodCall(mc) => {
             let m = mc.method.to_string();
             let n = mc.args.len();
-            let ok = matches!((m.as_str(), n), ("ln", 0) | ("sqrt", 0) | ("abs", 0) | ("ceil", 0) | ("floor", 0) | ("exp", 0) | ("clamp", 2) | ("powf", 1) | ("min", 1) | ("max", 1));
+            let ok = matches!((m.as_str(), n), ("ln", 0) | ("sqrt", 0) | ("abs", 0) | ("ceil", 0) | ("floor", 0) | ("exp", 0) | ("clamp", 2) | ("powf", 1) | ("powi", 1) | ("min", 1) | ("max", 1));
             if !ok {
                 return None;
             }
